@@ -51,7 +51,7 @@ def alias_tasks(units, tier):
         u = c11.unit_for(tt, pp); u.prop = "C13"; u.dir = os.path.join(BUILD, "C13", "units", u.name); units.append(u)
         w = c11.TYPES[tt][1]
         for (op, ar) in c11.OPS:
-            if w >= 32 and op in c11.HEAVY: continue
+            if w >= 16 and op in c11.HEAVY: continue      # (16-bit and wider multipliers / dividers: minutes to hours each; the 8-bit variants carry the aliasing argument)
             for ext in (False, True):
                 if ext and pp in ("cop", "bic"): continue
                 for (tag, args, dest) in ALIAS.get(ar, []):
@@ -107,7 +107,7 @@ def box_value_tasks(units, tier):
     T = []
     for (tt, pol) in ([("s8", "rat")] if tier == "quick" else [("s8", "nat"), ("s8", "rat")]):
         u = c03.box_unit(tt, pol, prop="C13"); units.append(u)
-        for d in ((2,) if tier == "quick" else (0, 1, 2)):
+        for d in ((2,) if tier == "quick" else (1, 2)):
             bound = {"unwind": d + 2, "note": "space dimension %d; interval contents and status flags arbitrary; libstdc++ copy loops unwound with unwinding assertions" % d}
             kw = dict(bounded=bound, timeout=1800, object_bits=9, defs={"BOX_D": d, "GHOST_RANGE": "((ex_t)%d)" % (1 << (u.defs["T_W"] + 1))}, split_post=True,
                       stubs=["c12_ghost.c", "c17_ghost.c", "c03_box.c"], group="box value %s %s" % (tt, pol))
